@@ -29,8 +29,12 @@ func (p *Program) isHelper(caller, callee *ssa.Function) bool {
 	if !inUniverse(callee.Pkg.Pkg.Path()) || p.isTestFile(callee.Pos()) {
 		return false
 	}
-	if callee.Object() == nil || callee.Object().Exported() {
-		return false // API functions are anchors of their own
+	if callee.Object() == nil {
+		return false
+	}
+	if callee.Object().Exported() {
+		// API functions are anchors of their own, except trivial pure accessors (one block, no calls)
+		return tinyPure(callee) && (caller.Pkg == nil || caller.Pkg == callee.Pkg)
 	}
 	if caller.Pkg != nil && caller.Pkg != callee.Pkg {
 		return false
@@ -227,4 +231,20 @@ func (p *Program) viewKeeping(fn *ssa.Function, keep func(*ssa.Function) bool) *
 	vi := &viewInfo{fn: nf, origin: origin, of: fn}
 	p.viewOf[nf] = vi
 	return nf
+}
+
+
+// tinyPure: a single basic block of at most eight instructions without calls, stores or allocation.
+func tinyPure(f *ssa.Function) bool {
+	if len(f.Blocks) != 1 || len(f.Blocks[0].Instrs) > 8 {
+		return false
+	}
+	for _, in := range f.Blocks[0].Instrs {
+		switch in.(type) {
+		case *ssa.BinOp, *ssa.UnOp, *ssa.Convert, *ssa.ChangeType, *ssa.Return, *ssa.DebugRef, *ssa.FieldAddr, *ssa.Field:
+		default:
+			return false
+		}
+	}
+	return true
 }
